@@ -100,6 +100,8 @@ def run(tier):
             chk.violation(sig, [{"script": sc, "line": v["line"]}] + seg, name="%s-%s.ndjson" % (vv["clause"], v["seg"]))
     if scripts:
         chk.sample({"script": scripts[0]["id"], "cf": scripts[0]["cf"], "steps": scripts[0]["steps"][:14], "events": ev[1:12]})
+    import dist_common
+    dist_common.run(chk, sd, tier, ["limconc"], {"C09"})
     chk.cov["exhaustive"] = True
     chk.cov["rule"] = "every transition of the TLA+ limiter model (bucket absent/tokens/age per client, cleanup) replayed on the real limiter; one case = one covering walk"
     chk.assumptions += ["one tick = 600 s virtual time; refill = R ticks; cleanup cutoff 1 h = 6 ticks, fired between driver ticks",
